@@ -250,7 +250,8 @@ func build(tier string) []*vexp.Scenario {
 		for _, d := range []vivid.SupervisionDecision{vivid.SupervisionDecisionRestart, vivid.SupervisionDecisionGracefulRestart, vivid.SupervisionDecisionStop} {
 			q := base
 			q.site, q.decision, q.kill = "msg", d, k
-			add(q)
+			// a kill landing inside the restart window needs two deviations (found at bound 2: fix 6ecde3c)
+			out = append(out, scenario(q, []int{0, 1, 2}))
 		}
 	}
 	// the decision arrives after the failed child has already been killed by somebody else
